@@ -337,6 +337,7 @@ def rule_c(ctx, sa, fa, acc_f, ls):
                                norm(t) in allowed, f"`{norm(s_)[:90]}` modifies the solution vector outside the elimination / back-substitution pieces built at setup", s_)
     sl = m.method(base, "setup_eliminate_lagrange_multiplier")
     am_sl = AM(sl)
+    am_sl.syn = [{"np.concatenate", "np.hstack"}]   # index vectors are 1-d
     p_ok = am_sl.has(sl.node, "self.fully_reduced_system_indices_full = reduced_system_indices[self.fully_reduced_system_indices]") is not None \
         and am_sl.has(sl.node, "reduced_system_indices = np.concatenate([self.pressure_indices, self.lagrange_multiplier_indices])") is not None
     ctx.ob(R, sl.qname, "scatter map = reduced-system indices (pressure, then multiplier) gathered by the fully-reduced index map", p_ok, str(am_sl.show()), sl.node)
